@@ -691,7 +691,7 @@ J(name="c19.getIcosahedronFaces", props=["C19", "C12", "C18"], harness="c19.c", 
                   "(h3v_seen ==> (out[0] == h3v_wf || out[1] == h3v_wf || (faceCount == 5 && (out[2] == h3v_wf || out[3] == h3v_wf || out[4] == h3v_wf))))")])
 J(name="c19.pentagons", props=["C19"], harness="c19.c", entry="h_pentagon_faces", unwind=18, timeout=2400, tier="never")  # symbolic over the 192 pentagons: does not finish
 
-for nmax, tier in ((1, "quick"), (2, "never"), (3, "never")):   # does not finish within 30 min even for 2 cells: not registered
+for nmax, tier in ((1, "never"), (2, "never"), (3, "never")):   # does not finish within 30 min even for 2 cells: not registered
     J(name="c17.compactCells.n%d" % nmax, props=["C17"], harness="c17.c", entry="h_compactCells", alloc=True, defs=["C17_NMAX=%d" % nmax],
       enforce=["compactCells/compactCells_c17"], replace=["isPentagon", "cellToParent"], unwind=nmax + 3, timeout=1800, tier=tier,
       checks=["--bounds-check", "--pointer-check"],
